@@ -77,13 +77,37 @@ type run struct {
 	steps      int
 	unknowns   int
 	assumes    []string
+	pcSet      map[int]bool
 }
 
 func (i *interpreter) addPC(c *smt.Term) {
 	if c.IsTrue() {
 		return
 	}
-	i.run.pc = append(i.run.pc, c)
+	r := i.run
+	r.pc = append(r.pc, c)
+	if r.pcSet == nil {
+		r.pcSet = map[int]bool{}
+	}
+	r.pcSet[c.ID] = true
+	if c.Op == smt.OpAnd {
+		for _, a := range c.Args {
+			r.pcSet[a.ID] = true
+		}
+	}
+}
+
+// implied reports a syntactic consequence of the path condition: +1 when c is
+// a conjunct of it, -1 when its negation is, 0 otherwise.
+func (i *interpreter) implied(c *smt.Term) int {
+	r := i.run
+	if r.pcSet[c.ID] {
+		return 1
+	}
+	if r.pcSet[i.F.Not(c).ID] {
+		return -1
+	}
+	return 0
 }
 
 func (i *interpreter) evalBool(c *smt.Term) bool {
@@ -119,6 +143,12 @@ func (i *interpreter) branch(c *smt.Term) bool {
 	}
 	r := i.run
 	F := i.F
+	switch i.implied(c) {
+	case 1:
+		return true
+	case -1:
+		return false
+	}
 	i.goLive()
 	if !r.live {
 		d := r.decs[r.k]
